@@ -1,3 +1,5 @@
 import PfVerif.Audit.Tool
 import PfVerif.Props.C14
+import PfVerif.Lemmas.C14Multi
 #audit_module PfVerif.Props.C14
+#audit_module_ns PfVerif.Lemmas.C14Multi PfVerif.C14Multi
